@@ -16,6 +16,7 @@ import (
 	"net/url"
 	"os"
 	"strings"
+	"sync"
 	"testing"
 	"time"
 
@@ -355,6 +356,11 @@ func TestAddRaw(t *testing.T) {
 		setCred(req, cred)
 		resp, err := httpc.Do(req)
 		if err != nil {
+			if ne, ok := err.(interface{ Timeout() bool }); (ok && ne.Timeout()) || strings.Contains(err.Error(), "too many open files") {
+				// 20 s without response headers on a loaded machine, or the
+				// process out of descriptors: nothing was observed
+				t.Fatalf("VERIF-INFRA: request got no answer: %v", err)
+			}
 			t.Fatalf("request failed: %v", err)
 		}
 		rb, _ := ioutil.ReadAll(resp.Body)
@@ -736,6 +742,11 @@ func TestRaw(t *testing.T) {
 		setCred(req, cred)
 		resp, err := httpc.Do(req)
 		if err != nil {
+			if ne, ok := err.(interface{ Timeout() bool }); (ok && ne.Timeout()) || strings.Contains(err.Error(), "too many open files") {
+				// 20 s without response headers on a loaded machine, or the
+				// process out of descriptors: nothing was observed
+				t.Fatalf("VERIF-INFRA: request got no answer: %v", err)
+			}
 			t.Fatalf("request failed: %v", err)
 		}
 		rb, _ := ioutil.ReadAll(resp.Body)
@@ -794,7 +805,20 @@ func TestRaw(t *testing.T) {
 
 // ---------- client library ----------
 
+var (
+	clientsMu sync.Mutex
+	clients   = map[*server]client.Client{}
+)
+
+// newClient returns the client of a server: one per server for the whole
+// run (a client per case leaves an idle keep-alive connection behind each
+// time and runs the process out of file descriptors after ~15000 cases).
 func newClient(s *server, t *rapid.T) client.Client {
+	clientsMu.Lock()
+	defer clientsMu.Unlock()
+	if c := clients[s]; c != nil {
+		return c
+	}
 	cfg := &client.Config{APIAddr: s.maddr, DisableKeepAlives: false}
 	if s.auth {
 		cfg.Username, cfg.Password = user, pass
@@ -803,6 +827,7 @@ func newClient(s *server, t *rapid.T) client.Client {
 	if err != nil {
 		t.Fatalf("client: %v", err)
 	}
+	clients[s] = c
 	return c
 }
 
